@@ -6,6 +6,14 @@ groups, an iteration touches only its own groups, immutable fields).
 -/
 namespace C14
 
+/-- the nodes of the residues of a key (`n_idxs`) -/
+def nIdxsOf (orig : List Atom) (key : List Int) : List Int :=
+  (orig.filter fun a => key.contains a.resid).map (·.key)
+
+/-- the `annotated` snapshot: the `modifications` an atom carried in the input -/
+def annotOf (orig : List Atom) : Int → List Nat :=
+  fun k => ((orig.find? fun a => a.key == k).map (·.mods)).getD []
+
 /-! ### upper bounds for what `identify_ptms` collects -/
 
 /-- atoms and anchors of a list of groups -/
@@ -458,5 +466,75 @@ theorem runIters_other (mods : List Modif) (orig : List Atom) (horig : (orig.map
           · exact flagged_not_nonPtm horig hinv ha0 hp _ h
           · exact hn0 h
         omega
+
+/-! ### `identify_ptms` (restated as `identify_spec` in the property file) -/
+
+theorem countP_le_one_of_pairwise {α} {l : List α} {q : α → Bool}
+    (h : l.Pairwise fun x y => ¬ (q x = true ∧ q y = true)) : l.countP q ≤ 1 := by
+  induction l with
+  | nil => simp
+  | cons x l ih =>
+    rw [List.pairwise_cons] at h
+    rw [List.countP_cons]
+    by_cases hx : q x = true
+    · have : l.countP q = 0 := by
+        rw [List.countP_eq_zero]
+        intro y hy hqy
+        exact h.1 y hy ⟨hx, hqy⟩
+      simp [hx, this]
+    · have := ih h.2
+      simp [hx]; omega
+
+theorem cover_exact_count_aux (np : List Int) (n : Nat) (tc : List Int) (frs : List Frag) (c : Cover)
+    (h : coverGraph np n tc frs = .ok c) (a : Int) (ha : a ∈ tc) (hp : a ∉ np) :
+    c.countP (fun e => (patoms e.2).contains a) = 1 := by
+  have x := coverWith_exact usable_inside np n tc frs c h
+  have h1 := x.covers
+  have h2 := x.disjoint
+  have hle : c.countP (fun e => (patoms e.2).contains a) ≤ 1 := by
+    apply countP_le_one_of_pairwise
+    refine h2.imp ?_
+    intro e e' hee ⟨he, he'⟩
+    exact hp (hee a (by simpa using he) (by simpa using he'))
+  have hpos : 0 < c.countP (fun e => (patoms e.2).contains a) := by
+    rw [List.countP_pos_iff]
+    obtain ⟨e, he, hae⟩ := h1 a ha
+    exact ⟨e, he, by simpa using hae⟩
+  omega
+
+theorem identify_spec_aux (res : List Atom) (edges : List (Int × Int)) (mods : List Modif) (annot : Int → List Nat)
+    (groups : List Group) (frags : List Frag) :
+    match identify res edges mods annot groups frags with
+    | .ok used cov =>
+        (∀ g ∈ groups, ∀ a ∈ g.atoms, ∃ e ∈ used ++ cov, a ∈ patoms e.2)
+        ∧ (∀ g ∈ groups, usedOf annot g = [] → ∀ a ∈ g.atoms, a ∉ nonPtm res →
+            cov.countP (fun e => (patoms e.2).contains a) = 1)
+        ∧ (∀ e ∈ cov, ∃ f ∈ frags, f.1 = e.1 ∧ e.2 ∈ f.2)
+    | .keyError rm => ∀ g ∈ groups, usedOf annot g = [] → ∀ a ∈ g.atoms, a ∈ rm
+    | .outOfFuel => False := by
+  unfold identify
+  cases hl : identifyLoop res edges mods annot groups [] [] [] with
+  | inr r =>
+    obtain ⟨rm, rfl, _, h2⟩ := identifyLoop_inr _ _ _ _ _ hl
+    exact h2
+  | inl x =>
+    obtain ⟨cov, tc, pending⟩ := x
+    obtain ⟨_, _, _, i4⟩ := identifyLoop_inl _ _ _ _ _ _ _ hl
+    simp only []
+    cases hc : coverGraph (nonPtm res) tc.length tc frags with
+    | outOfFuel => exact absurd hc (coverWith_fuel usable_progress _ _ _ _ (Nat.le_refl _))
+    | keyError =>
+      intro g hg hu a ha
+      exact ((i4 g hg).1 hu a ha).2
+    | ok c =>
+      refine ⟨?_, ?_, (coverWith_exact usable_inside _ _ _ _ _ hc).cand⟩
+      · intro g hg a ha
+        by_cases hu : usedOf annot g = []
+        · obtain ⟨e, he, hae⟩ := (coverWith_exact usable_inside _ _ _ _ _ hc).covers a ((i4 g hg).1 hu a ha).1
+          exact ⟨e, List.mem_append_right _ he, hae⟩
+        · obtain ⟨e, he, hae⟩ := (i4 g hg).2 hu a ha
+          exact ⟨e, List.mem_append_left _ he, hae⟩
+      · intro g hg hu a ha hnp
+        exact cover_exact_count_aux _ _ _ _ _ hc a ((i4 g hg).1 hu a ha).1 hnp
 
 end C14
